@@ -353,10 +353,22 @@ def floor_rule(ctx):
             if m not in params:
                 continue
             found = False
-            for st in inner.node.body:
-                if isinstance(st, ast.If) and any(isinstance(bb, ast.Raise) and "ValueError" in norm_text(bb.exc) for bb in st.body) and isinstance(st.test, ast.Compare) and len(st.test.ops) == 1:
-                    l, r = st.test.left, st.test.comparators[0]
-                    op = type(st.test.ops[0])
+            # a raising path (ValueError) whose path condition says  m * K > 1  -- in any
+            # spelling of the test (operands swapped, `not ... <= 1`, 1 < m * K, local aliases)
+            from ..astutil import cond_atoms as _cond_atoms
+
+            for rp in paths_of(inner.node):
+                if rp.kind != "raise" or rp.raise_exc is None or "ValueError" not in norm_text(rp.raise_exc) or not rp.conds:
+                    continue
+                et, raw, pol = rp.conds[-1]
+                for atom in _cond_atoms(raw, pol):
+                    try:
+                        c = ast.parse(atom, mode="eval").body
+                    except SyntaxError:
+                        continue
+                    if not (isinstance(c, ast.Compare) and len(c.ops) == 1):
+                        continue
+                    l, r, op = c.left, c.comparators[0], type(c.ops[0])
                     for prod, one, ok_ops in ((l, r, (ast.Gt,)), (r, l, (ast.Lt,))):
                         if const_number(one) == 1 and op in ok_ops and isinstance(prod, ast.BinOp) and isinstance(prod.op, ast.Mult) and m in {n.id for n in ast.walk(prod) if isinstance(n, ast.Name)}:
                             found = True
